@@ -28,6 +28,7 @@ type Line struct {
 type Doc struct {
 	Lines   []Line
 	FinalNL bool
+	FirstWS bool
 }
 
 func (d *Doc) String() string {
@@ -40,6 +41,10 @@ func (d *Doc) String() string {
 	}
 	return sb.String()
 }
+
+// FirstLineIndented: the first token of the text is a whitespace token (WS / E_WS), i.e. the first line is
+// indented content - not a blank line, not an indented comment
+func (d *Doc) FirstLineIndented() bool { return d.FirstWS }
 
 func leadOf(s string) string {
 	i := 0
@@ -78,6 +83,12 @@ func NewDoc(text string, toks []tokInfo) *Doc {
 			if _, ok := first[t.line-1]; !ok {
 				first[t.line-1] = t.ty
 			}
+		}
+	}
+	for _, t := range toks {
+		if !t.synthetic {
+			d.FirstWS = isWSType(t.ty) && !t.eof
+			break
 		}
 	}
 	for i, p := range parts {
@@ -127,7 +138,7 @@ func scaleWS(ws string, k int) string {
 
 // Apply returns the transformed document; ok=false when the step does not apply to this document.
 func (d *Doc) Apply(s Step) (*Doc, bool) {
-	nd := &Doc{FinalNL: d.FinalNL, Lines: append([]Line(nil), d.Lines...)}
+	nd := &Doc{FinalNL: d.FinalNL, FirstWS: d.FirstWS, Lines: append([]Line(nil), d.Lines...)}
 	switch s.Op {
 	case "scale":
 		if s.K < 1 {
@@ -313,6 +324,9 @@ func randStep(r *common.Rng, d *Doc, hist func(string)) (Step, bool) {
 		for b := 0; b <= n; b++ {
 			if b < n && !d.Lines[b].Real {
 				continue
+			}
+			if b == 0 && d.FirstLineIndented() {
+				continue // judged on its own by startProbe (a class of its own, see main.go)
 			}
 			if !r.Chance(1, dens) && !(n < 12 && r.Chance(1, 2)) {
 				continue
